@@ -395,6 +395,34 @@ pub(super) fn classify(
     })
 }
 
+/// Class of each non-receiver parameter, in order (used by `extract/delegates.rs`).
+pub fn param_classes(
+    cm: &CrateModel,
+    module: usize,
+    generics: &[&syn::Generics],
+    self_syn: Option<&syn::Type>,
+    sig: &syn::Signature,
+) -> Vec<InClass> {
+    let mut cx = Cx {
+        cm,
+        module,
+        bounds: BTreeMap::new(),
+        self_syn,
+        assoc: &[],
+    };
+    for g in generics {
+        cx.collect_bounds(g);
+    }
+    cx.collect_bounds(&sig.generics);
+    sig.inputs
+        .iter()
+        .filter_map(|a| match a {
+            syn::FnArg::Typed(pt) => Some(cx.class(&pt.ty, 0)),
+            syn::FnArg::Receiver(_) => None,
+        })
+        .collect()
+}
+
 pub fn render(rows: &[super::FnRow]) -> String {
     use super::super::autotraits::lean_string;
     let mut o = String::from(super::super::HEADER);
